@@ -11,6 +11,7 @@ from framework import PropertyCheck
 REACTIONS = ["ack", "stale", "nak", "silence", "error", "rstack"]
 MAX_ATT = 5
 TAILS = ["error", "error2", "rstack", "tick", "submit", "ack"]
+RACES = ["r_ack", "r_nak", "r_stale", "r_error", "r_dataack", "r_rstack"]
 
 
 class Driver:
@@ -76,6 +77,21 @@ class Driver:
     def tick(self):
         self.loop.tick()
         self._end_step(("tick",))
+
+    def race(self, frs):
+        """the frames arrive in the very loop iteration in which the acknowledgement timeout expires: asyncio runs
+        the I/O callback first, then the due timer, and only afterwards resumes the waiting coroutine"""
+        lp = self.loop
+        lp.settle()
+        nd = lp.next_deadline()
+        if nd is None:
+            return self.frames(frs)
+        lp._vt = max(lp._vt, nd)
+        lp.call_soon(lambda: [self.proto.frame_received(to_impl_frame(fr)) for fr in frs])
+        lp.call_soon(lp.stop)
+        lp.run_forever()          # one iteration: [I/O callback, stop, the due timer]
+        lp.settle()
+        self._end_step(("race", list(frs)))
 
     def wait_to(self, t):
         self.loop.advance_to(t)
@@ -165,6 +181,18 @@ def run_script(nsends, script, waits=None, late=None, cancels=None, rng=None, wa
                 d.frames([("NAK", 0, 0, frm), ("ACK", 0, 0, (frm + 1) % 8)])
             elif r == "errrst":           # ERROR immediately followed by RSTACK in one read
                 d.frames([("ERROR", 2, 0x51), ("RSTACK", 2, 2)])
+            elif r == "r_ack":            # ... racing the acknowledgement timeout (same loop iteration)
+                d.race([("ACK", 0, 0, (frm + 1) % 8)])
+            elif r == "r_nak":
+                d.race([("NAK", 0, 0, frm)])
+            elif r == "r_stale":
+                d.race([("ACK", 0, 0, frm)])
+            elif r == "r_error":
+                d.race([("ERROR", 2, 0x52)])
+            elif r == "r_dataack":
+                d.race([("DATA", d.proto._rx_seq, 0, (frm + 1) % 8, b"\x01")])
+            elif r == "r_rstack":
+                d.race([("RSTACK", 2, 11)])
             else:
                 raise ValueError(r)
         # after the workload: further peer frames / timers / sends, whatever state the link is in (a failed NCP
@@ -230,17 +258,17 @@ def enc_steps(steps):
 class Check(PropertyCheck):
     pid = "C05"
     gen_files = ["GenAsh"]
-    model_imports = ["gen.GenAsh", "model.AshCodec", "model.AshRx", "model.AshHost"]
-    run_expr = "run_host_case"
-    case_type = "(list hevent)"
+    model_imports = ["gen.GenAsh", "model.AshCodec", "model.AshRx", "model.AshHost", "model.AshRace"]
+    run_expr = "run_race_case"
+    case_type = "(list revent)"
     case_preamble = "From Coq Require Import PrimFloat."
     shard = 150
     rule = ("per-attempt peer reactions {covering ACK, stale ACK then silence, NAK, silence, ERROR, RSTACK then silence} plus "
             "piggybacked ACK on DATA, ACK+NAK / NAK+ACK / ERROR+RSTACK in one read: all scripts up to a depth bound for one send "
             "and for two queued sends, each also after 1..9 acknowledged sends of prior traffic (every starting frame number, the wrap included), random scripts with 1-6 queued sends, late submissions, caller cancellations and partial "
-            "waits before reactions; tails of repeated ERROR frames / RSTACK / timers / new sends after the workload in every order to a depth; virtual time, every timeout boundary hit exactly; non-trivial = at least one retransmission "
+            "waits before reactions; every kind of frame arriving in the very loop iteration in which the timeout expires (on every attempt, the last included); tails of repeated ERROR frames / RSTACK / timers / new sends after the workload in every order to a depth; virtual time, every timeout boundary hit exactly; non-trivial = at least one retransmission "
             "or failure; distinct by script")
-    assumptions = ["an acknowledgement and the timeout never fall into the same loop iteration (not modelled)",
+    assumptions = ["frames and the timeout in one loop iteration: asyncio's order (I/O callback, then the due timer, then coroutines) is modelled in AshRace.v",
                    "transport open; RST frames from the peer excluded"]
 
     def build_cases(self, tier, rng):
@@ -263,7 +291,21 @@ class Check(PropertyCheck):
                     cases.append({"n": 1, "script": list(s), "warm": warm})
                     if n <= d3 - 1:
                         cases.append({"n": 2, "script": list(s), "warm": warm})
-        allr = REACTIONS + ["dataack", "acknak", "nakack", "errrst", "ack", "ack", "silence", "nak"]
+        # frames racing the acknowledgement timeout (same loop iteration), every kind, on every attempt
+        d5 = 3 if tier == "quick" else 5
+        for n in range(1, d5 + 1):
+            for s in itertools.product(["ack", "silence", "nak"] + RACES, repeat=n):
+                if any(x in RACES for x in s):
+                    if tier == "quick" and n == d5 and rng.random() < 0.5:
+                        continue
+                    cases.append({"n": 1 + (len(cases) % 2), "script": list(s)})
+        for s in itertools.product(RACES, repeat=5):          # the whole budget spent on races: last-attempt boundary
+            if tier != "quick" or rng.random() < 0.02:
+                cases.append({"n": 2, "script": list(s)})
+        for r in RACES:
+            cases.append({"n": 2, "script": ["silence"] * 4 + [r]})
+            cases.append({"n": 1, "script": ["nak"] * 4 + [r]})
+        allr = REACTIONS + ["dataack", "acknak", "nakack", "errrst", "ack", "ack", "silence", "nak"] + RACES
         for _ in range(300 if tier == "quick" else 5000):
             n = rng.randrange(1, 7)
             ln = rng.randrange(2, 16)
@@ -295,29 +337,35 @@ class Check(PropertyCheck):
     def describe(self, case):
         return {k: v for k, v in case.items() if not k.startswith("_")}
 
+    @staticmethod
+    def _frames(frs):
+        fs = []
+        for fr in frs:
+            if fr[0] == "DATA":
+                fs.append(f"Data {fr[1]} {fr[2]} {fr[3]} [{';'.join(str(b) for b in fr[4])}]")
+            elif fr[0] in ("ACK", "NAK"):
+                fs.append(f"{'Ack' if fr[0] == 'ACK' else 'Nak'} {fr[1]} {fr[2]} {fr[3]}")
+            elif fr[0] == "RST":
+                fs.append("Rst")
+            else:
+                fs.append(f"{'Rstack' if fr[0] == 'RSTACK' else 'Error'} {fr[1]} {fr[2]}")
+        return "[" + "; ".join(fs) + "]"
+
     def model_input(self, case):
         out = []
         for e in case["_events"]:
             if e[0] == "submit":
-                out.append(f"Submit {e[1]} [{';'.join(str(b) for b in e[2])}]")
+                out.append(f"REv (Submit {e[1]} [{';'.join(str(b) for b in e[2])}])")
             elif e[0] == "frames":
-                fs = []
-                for fr in e[1]:
-                    if fr[0] == "DATA":
-                        fs.append(f"Data {fr[1]} {fr[2]} {fr[3]} [{';'.join(str(b) for b in fr[4])}]")
-                    elif fr[0] in ("ACK", "NAK"):
-                        fs.append(f"{'Ack' if fr[0] == 'ACK' else 'Nak'} {fr[1]} {fr[2]} {fr[3]}")
-                    elif fr[0] == "RST":
-                        fs.append("Rst")
-                    else:
-                        fs.append(f"{'Rstack' if fr[0] == 'RSTACK' else 'Error'} {fr[1]} {fr[2]}")
-                out.append("Frames [" + "; ".join(fs) + "]")
+                out.append(f"REv (Frames {self._frames(e[1])})")
+            elif e[0] == "race":
+                out.append(f"RRace {self._frames(e[1])}")
             elif e[0] == "tick":
-                out.append("Tick")
+                out.append("REv Tick")
             elif e[0] == "wait":
-                out.append(f"WaitTo {float(e[1]).hex()}%float")
+                out.append(f"REv (WaitTo {float(e[1]).hex()}%float)")
             elif e[0] == "cancel":
-                out.append(f"CancelCaller {e[1]}")
+                out.append(f"REv (CancelCaller {e[1]})")
         return "[" + "; ".join(out) + "]"
 
     def obs_to_z(self, case, obs):
@@ -338,8 +386,8 @@ class Check(PropertyCheck):
         resets_expected = 0
         for ev, st in zip(case["_events"], obs["steps"]):
             nreset_fail = sum(1 for e in st if e[0] == "reset" and e[1] != 11 and e[1] != 2)
-            rst = ev[0] == "frames" and any(fr[0] == "RSTACK" for fr in ev[1])
-            err = ev[0] == "frames" and any(fr[0] == "ERROR" for fr in ev[1])
+            rst = ev[0] in ("frames", "race") and any(fr[0] == "RSTACK" for fr in ev[1])
+            err = ev[0] in ("frames", "race") and any(fr[0] == "ERROR" for fr in ev[1])
             if rst:
                 failed_since = None
                 last_first_frm = None
@@ -362,9 +410,9 @@ class Check(PropertyCheck):
                         if not retx:
                             return "retransmission without the retransmit flag"
                         gap = tm - lst[-1][2]
-                        if ev[0] == "tick" and not (ash.T_RX_ACK_MIN - 1e-9 <= gap <= ash.T_RX_ACK_MAX + 1e-9):
+                        if ev[0] in ("tick", "race") and not (ash.T_RX_ACK_MIN - 1e-9 <= gap <= ash.T_RX_ACK_MAX + 1e-9):
                             return f"retransmission after {gap:.6f}s, outside [{ash.T_RX_ACK_MIN}, {ash.T_RX_ACK_MAX}]"
-                        if ev[0] not in ("tick", "frames"):
+                        if ev[0] not in ("tick", "frames", "race"):
                             return f"retransmission caused by neither a NAK nor a timeout ({ev[0]})"
                     lst.append((frm, retx, tm))
                     if len(lst) > ash.ACK_TIMEOUTS:
@@ -407,7 +455,7 @@ class Check(PropertyCheck):
             oks = [e for e in st if e[0] == "done" and e[2] == [0]]
             if oks:
                 acks = []
-                if ev[0] == "frames":
+                if ev[0] in ("frames", "race"):
                     acks = [fr[3] for fr in ev[1] if fr[0] in ("DATA", "ACK", "NAK")]
                 if cur_frm is None or (cur_frm + 1) % 8 not in acks:
                     return f"send {oks[0][1]} returned normally without an acknowledgement covering frame {cur_frm} (event {ev[0]})"
